@@ -896,7 +896,7 @@ matrix_ass_subscr(matrix* self, PyObject* args, PyObject* val)
       }
       else { /* spmatrix */
 
-        if (SP_NROWS(val) != MAT_LGT(Il) || SP_NCOLS(val) > 1) {
+        if (SP_NROWS(val) != MAT_LGT(Il) || SP_NCOLS(val) != 1) {
           if (!Matrix_Check(args)) { Py_DECREF(Il); }
           if (decref_val) { Py_DECREF(val); }
           PY_ERR_INT(PyExc_TypeError, "argument has wrong size");
